@@ -218,6 +218,9 @@ def r_qef_algebra(rule, root=None):
     if len(names) != 2:
         rule.lost("add_intersection(pos, grad)")
         return
+    exits = list(A.find(fn["body"], "Return"))
+    if exits:
+        rule.bad("qef|add|skip", "QuadraticErrorSolver::add_intersection can return without accumulating (`%s`): every sign-changing edge of a cell contributes its intersection - a solver left empty has no mass point and solves to NaN, and a threshold on the gradient's length is a threshold on the scale of the model" % (" && ".join(A.enclosing_conds(fn["body"], exits[0]) or []) or A.unparse(exits[0]))[:90], A.where(QEF, exits[0]))
     st = _state()
     env = dict(st)
     p, g = _vec("p", 3), _vec("g", 4)
